@@ -40,6 +40,9 @@ type PCase struct {
 	Log     psm.Log     `json:"log"`
 	Queries [][]float32 `json:"queries"`
 	Ks      []int       `json:"ks"`
+	// Lag: windows [from, to) of entry positions during which a second replica of the partition applies nothing; at
+	// the end of a window it installs the first replica's snapshot (a lagging follower catching up through a snapshot)
+	Lag [][2]int `json:"lag,omitempty"`
 }
 
 func TestPartitionSearchValidity(t *testing.T) {
@@ -47,33 +50,97 @@ func TestPartitionSearchValidity(t *testing.T) {
 		Weights: [6]int{6, 6, 4, 3, 3, 2}})
 	pbt.Run(t, pbt.Prop[PCase]{
 		ID: "C01", Name: "TestPartitionSearchValidity",
-		Rule: "rapid-generated logs of serialized partition changes (all six kinds; updates with nil, empty, overlapping and empty-valued metadata) applied through the repository's partition apply function (default index parameters), with a k-NN search after every entry judged by the same validity predicate against the sequential map model (live ids, current merged metadata, true scores, ascending, distinct, <=k, non-empty); non-trivial = a search after >=1 applied update or delete on a non-empty collection; distinct = distinct case JSON",
+		Rule: "rapid-generated logs of serialized partition changes (all six kinds; updates with nil, empty, overlapping and empty-valued metadata) applied through the repository's partition apply function (default index parameters), with a k-NN search (through partition.search) after every entry, on the replica itself and on a second replica that lags inside generated windows and then installs the first replica's snapshot between two identical searches, judged by the same validity predicate against the sequential map model (live ids, current merged metadata, true scores, ascending, distinct, <=k, non-empty); non-trivial = a search after >=1 applied update or delete on a non-empty collection; distinct = distinct case JSON",
 		Gen: func(t *rapidT) PCase {
 			l := g.Draw(t, "log")
 			q := gen.Vector(l.Dim, l.Metric == 2)
-			return PCase{Log: l, Queries: rapid.SliceOfN(q, 1, 4).Draw(t, "queries"), Ks: rapid.SliceOfN(rapid.SampledFrom([]int{1, 1, 2, 3, 10, 100}), 1, 3).Draw(t, "ks")}
+			c := PCase{Log: l, Queries: rapid.SliceOfN(q, 1, 4).Draw(t, "queries"), Ks: rapid.SliceOfN(rapid.SampledFrom([]int{1, 1, 2, 3, 10, 100}), 1, 3).Draw(t, "ks")}
+			for pos, n := 0, len(l.Entries); pos < n && rapid.IntRange(0, 2).Draw(t, "lag") > 0; {
+				from := pos + rapid.IntRange(0, n-pos-1).Draw(t, "from")
+				to := from + 1 + rapid.IntRange(0, 6).Draw(t, "len")
+				if to > n {
+					to = n
+				}
+				c.Lag = append(c.Lag, [2]int{from, to})
+				pos = to
+			}
+			return c
 		},
 		Replicas: 2,
 		Check: func(c PCase, o *pbt.Obs) *pbt.Failure {
 			sm := storage.VerifNewPartitionSM(psm.Meta(c.Log))
-			m := idxsm.Model{}
-			sp := idxsm.NewSpace(c.Log.Metric)
+			// a second replica of the partition: applies the same entries except inside the lag windows, at whose end it
+			// installs the first replica's snapshot; it answers the same searches from its own state
+			twin := storage.VerifNewPartitionSM(psm.Meta(c.Log))
+			spc := idxsm.NewSpace(c.Log.Metric)
+			m, mTwin := idxsm.Model{}, idxsm.Model{}
+			copyModel := func(src idxsm.Model) idxsm.Model {
+				dst := idxsm.Model{}
+				for id, it := range src {
+					c := &idxsm.Item{Vec: append([]float32(nil), it.Vec...), Level: it.Level}
+					if it.Meta != nil {
+						c.Meta = map[string]string{}
+						for k, v := range it.Meta {
+							c.Meta[k] = v
+						}
+					}
+					dst[id] = c
+				}
+				return dst
+			}
+			lagging := func(i int) (bool, bool) { // inside a window, last position of a window
+				for _, w := range c.Lag {
+					if i >= w[0] && i < w[1] {
+						return true, i == w[1]-1
+					}
+				}
+				return false, false
+			}
+			search := func(r *storage.VerifPartitionSM, model idxsm.Model, q []float32, k int, where string) *pbt.Failure {
+				// through partition.search, the way Dataset.Search / SearchPartitions reach a partition
+				res, err := r.Search(context.Background(), q, uint(k))
+				if err != nil {
+					return pbt.Failf("C01:search-error", "%s: %v", where, err)
+				}
+				return idxsm.CheckSearch(res, model, spc, q, k, where)
+			}
 			changed, nt := false, false
 			for i, e := range c.Log.Entries {
 				psm.ApplyModel(m, e)
 				if _, _, err := sm.Apply(psm.Marshal(e, i), psm.NotifID(i)); err != nil {
 					return pbt.Failf("C01:apply-error", "entry %d %s: apply returned %v", i, e, err)
 				}
+				in, last := lagging(i)
+				if !in {
+					psm.ApplyModel(mTwin, e)
+					if _, _, err := twin.Apply(psm.Marshal(e, i), psm.NotifID(i)); err != nil {
+						return pbt.Failf("C01:apply-error", "second replica, entry %d %s: apply returned %v", i, e, err)
+					}
+				}
 				if e.Kind != psm.KInsert && e.Kind != psm.KBatchInsert {
 					changed = true
 				}
 				q, k := c.Queries[i%len(c.Queries)], c.Ks[i%len(c.Ks)]
-				res, err := sm.Index().Search(context.Background(), q, uint(k))
-				if err != nil {
-					return pbt.Failf("C01:search-error", "after entry %d: %v", i, err)
-				}
-				if f := idxsm.CheckSearch(res, m, sp, q, k, fmt.Sprintf("search after entry %d %s", i, e)); f != nil {
+				if f := search(sm, m, q, k, fmt.Sprintf("search after entry %d %s", i, e)); f != nil {
 					return f
+				}
+				if f := search(twin, mTwin, q, k, fmt.Sprintf("search on the second replica (lagging=%v) after entry %d %s", in, i, e)); f != nil {
+					return f
+				}
+				if last {
+					// the lagging replica catches up through the first replica's snapshot and is asked the same question again
+					data, err := sm.Snapshot()
+					if err != nil {
+						return pbt.Failf("C01:snapshot-error", "after entry %d: %v", i, err)
+					}
+					if err := twin.Restore(data); err != nil {
+						return pbt.Failf("C01:restore-error", "after entry %d: restoring the first replica's snapshot returned %v", i, err)
+					}
+					mTwin = copyModel(m)
+					o.Label("second-replica-installed-a-snapshot-between-two-identical-searches")
+					if f := search(twin, mTwin, q, k, fmt.Sprintf("the same search on the second replica right after it installed the first replica's snapshot (after entry %d)", i)); f != nil {
+						return f
+					}
 				}
 				if changed && len(m) > 0 {
 					nt = true
